@@ -1665,7 +1665,12 @@ def _agg_fail(res, part, ns, fails, extra_case=None, **kw):
     for kind, f in sorted(fails.items()):
         case = {"part": part, "ns": ns, "label": f["first"][0]}
         case.update(extra_case or {})
-        res.fail(kind, case, count=f["count"], first_labels=f["first"], detail=f["detail"], **kw)
+        kw2 = dict(kw)
+        # model of F-14b: the loader compares the 32-bit header fields with the unmasked source mtime, so ONLY a source dated
+        # outside 0..2^32-1 seconds gets a cache that is written correctly and yet never served
+        if kind == "rewritten-cache-not-served" and f["count"] == len(f["first"]) and all(str(l).startswith("source-mtime-2^32+") for l in f["first"]):
+            kw2["explained_by"] = "F-14b-mtime-beyond-32-bits"
+        res.fail(kind, case, count=f["count"], first_labels=f["first"], detail=f["detail"], **kw2)
 
 
 def _judge_writer(res, seed, names, out):
